@@ -26,7 +26,7 @@ def alphabet(kind='cpl', core=False):
         ops += [{'via': 'setter', 'kw': {k: 0}} for k in ('semi_major_axis', 'orbital_frequency')] + [{'via': 'orbit_setter', 'kw': {k: 0}} for k in ORBIT_KEYS]
         if not sync:
             ops += [{'via': 'setter', 'kw': {'spin_frequency': 0}}, {'via': 'world_method', 'kw': {'spin_frequency': 0}}, {'via': 'world_method', 'kw': {'spin_period': 0}}]
-        if kind in ('cpl_obl', 'ctl_obl', 'layered', 'dual_layered'):
+        if kind in ('cpl_obl', 'ctl_obl', 'layered', 'layered_sync', 'dual_layered'):
             ops += [{'via': 'world_method', 'kw': {'obliquity': 0}}]
     if kind.startswith('dual'):
         ops += [{'via': 'host', 'kw': {'host_spin_period': 0}}]
@@ -34,7 +34,7 @@ def alphabet(kind='cpl', core=False):
             ops += [{'via': 'host', 'kw': {'host_fixed_q': 0}}]
         if kind == 'dual_layered':
             ops += [{'via': 'host', 'kw': {'host_obliquity': 0}}, {'via': 'host', 'kw': {'host_temperature': 0}}, {'via': 'host', 'kw': {'host_spin_period': 0, 'host_obliquity': 0}}]
-    if kind in ('cpl_obl', 'ctl_obl', 'layered', 'dual_layered'):
+    if kind in ('cpl_obl', 'ctl_obl', 'layered', 'layered_sync', 'dual_layered'):
         ops += [{'via': 'world', 'kw': {'obliquity': 0}}, {'via': 'world', 'kw': {'obliquity': 0, 'eccentricity': 0}}, {'via': 'setter', 'kw': {'obliquity': 0}}]
     if kind.startswith('layered') or kind == 'dual_layered':
         ops += [{'via': 'layer', 'kw': {'temperature': 0}}, {'via': 'layer_setter', 'kw': {'temperature': 0}}]
@@ -236,10 +236,10 @@ def _sha_of_sources():
 def main():
     jobs = []
     if TIER == 'thorough':
-        plan = [('cpl', 3, 16, False, True), ('cpl', 2, 8, False), ('ctl', 2, 4, False), ('cpl_obl', 2, 4, False), ('ctl_obl', 1, 1, False), ('cpl_sync', 2, 4, False), ('layered', 2, 8, False), ('dual_cpl', 2, 6, False), ('dual_layered', 2, 10, False),
+        plan = [('cpl', 3, 16, False, True), ('cpl', 2, 8, False), ('ctl', 2, 4, False), ('cpl_obl', 2, 4, False), ('ctl_obl', 1, 1, False), ('cpl_sync', 2, 4, False), ('layered', 2, 8, False), ('dual_cpl', 2, 6, False), ('dual_layered', 2, 10, False), ('layered_sync', 2, 6, False), ('ctl_sync', 2, 3, False),
                 ('cpl', 2, 4, True), ('layered', 1, 1, True), ('dual_cpl', 1, 1, True)]
     else:
-        plan = [('cpl', 2, 6, False), ('ctl', 1, 1, False), ('cpl_obl', 1, 1, False), ('cpl_sync', 1, 1, False), ('layered', 1, 2, False), ('dual_cpl', 1, 1, False), ('dual_layered', 1, 2, False), ('cpl', 1, 1, True)]
+        plan = [('cpl', 2, 6, False), ('ctl', 1, 1, False), ('cpl_obl', 1, 1, False), ('cpl_sync', 1, 1, False), ('layered', 1, 2, False), ('dual_cpl', 1, 1, False), ('dual_layered', 1, 2, False), ('layered_sync', 1, 1, False), ('ctl_sync', 1, 1, False), ('cpl', 1, 1, True)]
     plan = [tuple(p) + (False,) * (5 - len(p)) for p in plan]
     for world, k, n, arrays, core in plan:
         for c in range(n):
